@@ -183,18 +183,22 @@ def judge_program(prop, P, exe, rng, tier, out, agg, label):
             mapped = {"C20": "C12", "C13": "C12" if not (it.filters.positive or it.filters.skip or it.filters.builder_skip) else "C13"}.get(v.prop, v.prop)
             if mapped == prop:
                 out.violation("%s:%s" % (prop, v.code), "[generated crate %s, %s] %s" % (P.crate, " ".join(cli), v.msg), dict(payload, cli=cli, stdout=so[-4000:]))
-    # 3. terse listing = expected case multiset
-    rc, so, se = run_bin(exe, ["--list", "--format", "terse", "--include-ignored"], {"NEXTEST": "1"})
-    if rc == 0 and prop == "C12":
+    # 3. terse listing = expected case multiset, under each ignore mode (every registered case at its path, skipped ones left out)
+    for mode, flags in (("include", ["--include-ignored"]), ("no", []), ("only", ["--ignored"])):
+        rc, so, se = run_bin(exe, ["--list", "--format", "terse"] + flags, {"NEXTEST": "1"})
+        if rc != 0 or prop != "C12":
+            continue
         body = so.split(tree_parse.MARK_LOG)[0]
         listed = sorted(l[:-len(": benchmark")] for l in body.split("\n") if l.endswith(": benchmark"))
         roots = TG.build_tree(P.spec)
-        want = sorted(c.path() for c in TG.cases(roots))
+        want = sorted(c.path() for c in TG.cases(roots) if mode == "include" or TG.runs_under(mode, bool(TG.effective_options(c, {}).get("ig", 0))))
         agg["cases_expected"] = agg.get("cases_expected", 0) + len(want)
+        out.evaluations += 1
         if listed != want:
             missing = [p for p in want if listed.count(p) < want.count(p)]
             extra = [p for p in listed if want.count(p) < listed.count(p)]
-            out.violation("C12:case_set", "cases found %s differ from cases written: missing %s, extra %s" % (len(listed), missing[:5], extra[:5]), dict(payload, stdout=so[-3000:]))
+            out.violation("C12:case_set", "terse listing (%s): cases found %s differ from cases written: missing %s, extra %s" % (
+                " ".join(flags) or "default", len(listed), missing[:5], extra[:5]), dict(payload, stdout=so[-3000:]))
 
 
 def prepare(tier, seed):
